@@ -21,9 +21,9 @@ RULE = ('front-end x framer x {single, multi-unit hosted sets} x ignore_missing 
 def gen_case(rng, frontend=None):
     fe = frontend or rng.choice(frontends.FRONTENDS)
     framer = rng.choice(serverlib.FRAMERS_FOR[fe])
-    single, units = serverlib.gen_units(rng)
+    single, units = serverlib.gen_units(rng, single=True if framer == 'tls' else None)
     ignore = rng.random() < 0.5
-    bcast = rng.random() < 0.4
+    bcast = rng.random() < 0.4 and framer != 'tls'
     hosted = [u for u, _ in units]
     n = rng.choice([1, 2, 5, 12, 30])
     reqs, frames, meta = [], [], []
@@ -34,6 +34,8 @@ def gen_case(rng, frontend=None):
         if rng.random() < 0.05:
             r = {'t': 'illegalFunction', 'fc': rng.choice(execlib.UNASSIGNED_FC[1:]), 'data': [0, 1, 0, 1]}
         tid = rng.choice([0, 1, 0xFFFF, rng.randrange(65536)])
+        if framer == 'tls':
+            uid, tid = 0, 0       # a TLS record carries the bare PDU: the ids are the request object's defaults
         if framer == 'rtu' and r['t'] == 'illegalFunction':
             continue   # an unknown function code has no RTU frame length (C05 scope note)
         if framer == 'rtu' and 'raw' in r and len(r['raw']) != r.get('byte_count', r.get('write_byte_count')):
@@ -44,7 +46,10 @@ def gen_case(rng, frontend=None):
         reqs.append(execlib.strip(r))
         frames.append(f)
         meta.append({'uid': uid, 'tid': tid, 'fc': f and (execlib.enc_req(r)[0])})
-    if fe in frontends.STREAM_FRONTENDS:
+    if framer == 'tls':
+        chunks = frames           # one PDU per TLS record, one record per read
+        per_chunk = [[m] for m in meta]
+    elif fe in frontends.STREAM_FRONTENDS:
         k = rng.choice([1, 1, 2, 3, max(1, len(frames))])
         chunks = [[b for f in frames[i:i + k] for b in f] for i in range(0, len(frames), k)]
         per_chunk = [meta[i:i + k] for i in range(0, len(meta), k)]
@@ -73,15 +78,15 @@ def accepted_by_framer(c, m):
     hosted = [u for u, _ in c['units']]
     if c['single'] or 0 in hosted or 255 in hosted:
         return True
-    adds0 = c['broadcast'] and c['frontend'] in ('syncTcp', 'syncSerial', 'aioTcp', 'aioUdp')
+    adds0 = c['broadcast'] and c['frontend'] not in ('twistedTcp', 'twistedUdp')
     return m['uid'] in hosted or (adds0 and m['uid'] == 0) or (adds0)  # 0 in units opens the filter for every unit
 
 
 def check(ctx, rep, cases, where='server history'):
     res = serverlib.run_both(ctx, cases)
     for c, (real, a) in zip(cases, res):
-        outs, escs, dumps = real
-        case = {k: c[k] for k in ('frontend', 'framer', 'single', 'units', 'ignore_missing', 'broadcast', 'chunks')}
+        outs, escs, dumps, alive = real
+        case = {k: c[k] for k in ('frontend', 'framer', 'single', 'units', 'ignore_missing', 'broadcast', 'chunks', 'reqs', 'per_chunk')}
         case['kind'] = 'server'
         produced = sum(len(o) for o in outs)
         rep.case((c['frontend'], c['framer'], str(c['chunks']), c['ignore_missing'], c['broadcast'], c['single']), nontrivial=produced > 0,
@@ -138,7 +143,7 @@ def check(ctx, rep, cases, where='server history'):
 def run(ctx):
     rep = Report(RULE)
     rng = ctx.rng
-    total = ctx.scale(700, 30000)
+    total = ctx.scale(2500, 40000)
     done = 0
     while done < total and ctx.time_left() > 20:
         cases = [gen_case(rng) for _ in range(100)]
@@ -150,10 +155,17 @@ def run(ctx):
 
 def replay(ctx, payload):
     rep = Report(RULE)
-    c = payload['case']
-    c = dict(c, reqs=[], per_chunk=[[] for _ in c['chunks']])
-    res = serverlib.run_both(ctx, [c])
-    (real, a) = res[0]
-    if not serverlib.compare(rep, c, real, a, 'replay'):
+    c = dict(payload['case'])
+    c.setdefault('reqs', [])
+    if 'per_chunk' not in c:
+        res = serverlib.run_both(ctx, [c])
+        (real, a) = res[0]
+        if not serverlib.compare(rep, c, real, a, 'replay'):
+            return 'model/implementation disagreement'
+        return None
+    check(ctx, rep, [c])
+    if rep.violations:
+        return rep.violations[0]['what']
+    if rep.disagreements:
         return 'model/implementation disagreement'
     return None
